@@ -104,7 +104,8 @@ async def _impl_send(a2c, c2a, ctr, payload):
 async def _impl_recv(a2c, c2a, ctr, buf, chunks):
     p = ipc.SecureHomeKitProtocol(_Conn(), a2c, c2a)
     p.a2c_counter = ctr
-    p._incoming_buffer = bytearray(buf)
+    if buf:
+        p._incoming_buffer = bytearray(buf)  # (a new session is otherwise used exactly as the library built it)
     delivered = []
     orig = ipc.InsecureHomeKitProtocol.data_received
     ipc.InsecureHomeKitProtocol.data_received = lambda self, data: delivered.append(bytes(data))
@@ -268,6 +269,18 @@ def run(ctx: Ctx, driver: Driver):
             one_recv("truncated", key, ctr, blocks, stream[:cut_at], cuts, full, False, True)
         else:
             one_recv("multi-cut", key, ctr, blocks, stream, cuts, blocks, False, True)
+    # ---------------- a new session after one that ended in the middle of a frame: nothing of the old session's bytes
+    # (or counters) may reach the new one
+    for _ in range(ctx.budget(30, 400)):
+        key1, key2 = rb(rng, 32), rb(rng, 32)
+        blocks1 = [rb(rng, rng.choice([5, 100, 1024])) for _ in range(rng.randrange(1, 4))]
+        s1 = ref_frames(key1, 0, blocks1)
+        cut_at = rng.randrange(1, len(s1))
+        impl_recv_str(loop, key1, 0, b"", [s1[:cut_at]])  # session 1: the link drops here
+        blocks2 = [rb(rng, rng.choice([1, 50, 1024])) for _ in range(rng.randrange(1, 4))]
+        s2 = ref_frames(key2, 0, blocks2)
+        cuts = tuple(sorted(set(rng.randrange(1, len(s2)) for _ in range(rng.choice([0, 1, 3])))))
+        one_recv("after-dropped-session", key2, 0, blocks2, s2, cuts, blocks2, False, True)
     ctx.sample({k2: (v if len(str(v)) < 300 else str(v)[:300] + "...") for k2, v in cases[0].items()})
     compare_with_model(ctx, "recv", cases, outs, lines, driver)
     loop.close()
